@@ -223,6 +223,10 @@ def engine(wire_stb=True):
                     ok = True
                 elif b.in_trait and r.startswith("scpi_contrib::ieee488::IEEE4882::stb") and not wire_stb:
                     ok = True
+                elif b.in_trait and r.startswith(("scpi_contrib::ieee488::IEEE4882::", "scpi::error::ErrorQueue::")) and not r.endswith("::stb"):
+                    # other provided methods of the device traits (helpers a device inherits): analysed in place; the
+                    # required methods they call are interpreted on the abstract device
+                    ok = True
         cache[r] = ok
         return ok
 
